@@ -480,6 +480,15 @@ def stepPar (judge : St → Hub → Op → ImplOut → String) (st : St) (subs :
 def stepWith (judge : St → Hub → Op → ImplOut → String) (st : St) (opToks implToks : List String) :
     St × String × String :=
   if opToks.head? == some "par" then stepPar judge st (splitToks ";;" (opToks.drop 1)) implToks else
+  if opToks.head? == some "joinrace" then
+    -- joinrace sN room rsid c2: a join whose backend reply is held while the session is taken over by c2 and
+    -- says bye there.  Whatever the interleaving, the session has ended: at rest the tables are those of
+    -- "take-over, bye" (the join either never completed or was undone).
+    match opToks with
+    | [_, s, _, _, c2] =>
+      stepPar judge st [["resume", c2, s], ["bye", c2]] implToks
+    | _ => (st, "bad-op", "na")
+  else
   if opToks.head? == some "fed" then
     -- the list of federated sessions is not part of the model: nothing changes, the judge looks at the list
     let impl := parseImpl implToks
